@@ -31,6 +31,10 @@ pub enum Op {
     /// the guest writes to a kick eventfd that the ring no longer uses (dropped by
     /// GET_VRING_BASE or replaced); judged only while the ring is inactive
     KickOld(usize),
+    /// SET_VRING_KICK without a descriptor (bit 8 of the index word; raw bytes, the Frontend API
+    /// always passes one): the ring has no current kick descriptor afterwards, whatever is
+    /// raised on the one it gave up must not reach the backend
+    KickNofd(usize),
 }
 
 const ALPHA1: [Op; 8] = [
@@ -68,7 +72,8 @@ fn gen_history(t: &mut Tape, nrings: usize, deep: bool) -> Vec<Op> {
     let mut v = Vec::new();
     for _ in 0..n {
         let r = t.draw(nrings as u64) as usize;
-        v.push(match t.draw(14) {
+        v.push(match t.draw(15) {
+            14 => Op::KickNofd(r),
             0 => Op::SetFeaturesNoPf,
             1 => Op::SetFeaturesPf,
             2 | 3 => Op::Kickfd(r),
@@ -271,8 +276,23 @@ fn run_v<V: VringT<GM<()>> + Clone + Send + Sync + 'static>(sim: &Sim, cfg: &Run
                     oldfds[r].push(old);
                 }
             }
+            Op::KickNofd(r) => {
+                let req = spec::FReq::SetVringKick { idx: r as u8, nofd: true };
+                if crate::fdu::raw_send_segmented(vmm.raw.as_raw_fd(), &req.wire(false), &[], &[], 0).is_err() {
+                    viol("control_message_failed", format!("{op:?}"), format!("step {step} {op:?}: send failed"));
+                }
+                if let Some(old) = kickfds[r].take() {
+                    oldfds[r].push(old);
+                }
+                // started-ness is left as it was (the statement ties starting to the receipt of
+                // a descriptor and stopping to GET_VRING_BASE); without a current descriptor
+                // nothing can be dispatched either way
+                m[r].has_kick = false;
+                m[r].pending = false;
+                sim.probe("set_vring_kick_without_descriptor");
+            }
             Op::KickOld(r) => {
-                let active = m[r].started && m[r].enabled;
+                let active = m[r].started && m[r].enabled && m[r].has_kick;
                 match oldfds[r].last() {
                     Some(fd) if !active => {
                         crate::sched::point("guest.before_kick");
